@@ -518,6 +518,15 @@ pub fn exec(a: &Act, cx: &Cx) {
         Act::TryUnwrap { reg } => op_try_unwrap(*reg, cx),
         Act::FinalizeAgain { reg } => op_finalize_again(*reg, cx),
         Act::Collect => op_collect(cx),
+        Act::CollectInConfig => {
+            if cx.is_top() {
+                IN_CONFIG.with(|c| c.set(true));
+                op_collect(cx);
+                IN_CONFIG.with(|c| c.set(false));
+            } else {
+                op_collect(cx)
+            }
+        }
         Act::CollectQuiet => {
             if cx.is_top() {
                 op_collect_quiet(cx)
@@ -1000,6 +1009,21 @@ fn op_finalize_again(reg: Dst, cx: &Cx) {
 // ---------------------------------------------------------------------------------------------------------------
 // collections
 
+thread_local! {
+    /// the next top-level collect_cycles() is issued from inside a config closure
+    static IN_CONFIG: Cell<bool> = const { Cell::new(false) };
+}
+
+fn collect_call() {
+    #[cfg(feature = "auto-collect")]
+    if IN_CONFIG.with(|c| c.replace(false)) {
+        // (a failing config access would mean a configuration borrow is already active: never the case at top level)
+        let _ = rust_cc::config::config(|_c| collect_cycles());
+        return;
+    }
+    collect_cycles()
+}
+
 fn op_collect(cx: &Cx) {
     let wd = w();
     let was = wd.in_collection.get();
@@ -1010,7 +1034,7 @@ fn op_collect(cx: &Cx) {
     }
     let res = {
         let _r = Restore(&wd.in_collection, was);
-        let r = api(Frame::ApiCollect, cx, "collect_cycles", collect_cycles);
+        let r = api(Frame::ApiCollect, cx, "collect_cycles", collect_call);
         if !was {
             oracle::collection_finished(wd, r.is_some());
         }
